@@ -233,6 +233,23 @@ impl Ctx {
         }
     }
 
+    /// Run something that may ABORT the process (native stack exhaustion, allocation failure): the
+    /// input is written to `replays/` first and removed when the call returns, so that a dead
+    /// harness leaves its failing input behind (the check script reports it).
+    pub fn risky<T>(&mut self, label: &str, input: &str, f: impl FnOnce() -> T) -> T {
+        let _ = std::fs::create_dir_all("/verif/replays");
+        let path = format!("/verif/replays/{}_{}_early_risky.json", self.prop, self.seed);
+        let body = serde_json::json!({
+            "property": self.prop, "kind": "oracle",
+            "what": format!("the harness process died (abort: stack overflow / allocation failure) while the engine evaluated this input: {}", label),
+            "rule_or_input": input,
+        });
+        let _ = std::fs::write(&path, serde_json::to_string_pretty(&body).unwrap_or_default());
+        let out = f();
+        let _ = std::fs::remove_file(&path);
+        out
+    }
+
     pub fn sample(&mut self, v: serde_json::Value) {
         if self.samples.len() < 6 {
             self.samples.push(v);
